@@ -13,13 +13,19 @@ Deliberately small.  The accepted Rust subset is exactly:
   items   `struct S { pub f: Decimal, .. }`, `enum E { A, B, .. }` (unit variants), `fn`
   fn      `pub? fn name<T..>(mut? x: Ty, ..) -> Ty where .. { body }`,  Ty in Decimal | generic T (|-> Rat) |
           a translated struct/enum | Option<Self> / Option<Ty> / Self (inside `impl S`)
-  body    `let mut? x (: Ty)? = e;`   `x += e;` (also -= *= /=; only on a `mut` variable, only at the top
+  body    `let mut? x (: Ty)? = e;` (also a hoisted test `let b = <bool expr>;`)   `x += e;` (also -= *= /=; only on a `mut` variable, only at the top
           level of the fn body)   `if c { return e; }` (early return, no else)   `return e;`   tail expression
   expr    + - * / unary -, == != < <= > >=, && || !, parentheses, blocks `{ let..; e }`,
           `if c {..} else if .. else {..}`, `match <bool> { true => .., false => .. }`,
           `match x { E::A => .., E::B => .. }` (all variants, no wildcard), `x.field`,
           `.abs()` `.is_zero()` `.checked_div(e)`, postfix `?` (in an Option-valued fn), `None` `Some(e)`,
           `Self { f }` / `Self { f: e }`, `Decimal::ZERO|ONE|TWO|TEN|MAX|MIN`, calls of other translated fns
+A call of a function that is NOT in KERNELS is looked up in the source -- the caller's `mod` / `impl`, then the top
+level of the caller's file -- and translated on demand, transitively, as an AUXILIARY item of the caller's group (file,
+line and source hash in the header; definition emitted before its caller); it is rejected only if it cannot be found
+or is outside the subset.  Every generated definition carries the simp attribute `gen_<group>` of its group
+(lean/BarterModel/Generated/Attr.lean), so that the agreement proofs unfold "everything generated for this group"
+without naming auxiliary definitions.
 Everything else is REJECTED: exit status 1 and a message naming the function and the construct.  It never
 guesses.  A function of a group that is not `--require`d is then left out of the generated file (its
 agreement theorem stops building) and the exit status stays 0; without `--require` every group is required.
@@ -223,6 +229,52 @@ class World:
         self.structs = {}   # name -> [(field, ty)]
         self.enums = {}     # name -> [variant]
         self.fns = {}       # (container_type_or_None, name) -> (lean_name, [param ty], ret ty)
+        self.ctx = None     # (group, rel, container, raw, text) of the table item being translated
+        self.pending = []   # Lean text of the auxiliary items translated while compiling the current table item
+        self.aux_header = []
+        self.aux_busy = set()
+        self.aux_names = {}  # lean name of an auxiliary item -> set of groups whose simp set it is in
+
+
+def aux_translate(world, key, shown):
+    """LOOKUP of a called function that is not in the item table (typically a private helper extracted by a
+    refactoring): searched in the caller's container (`mod x` / `impl X`), then at the top level of the caller's file,
+    and translated on demand as an auxiliary item of the caller's group (hash in the header, definition in the
+    group's simp set).  True if it was found and translated; False if there is no such function; Reject if it exists
+    but is outside the accepted subset."""
+    if world.ctx is None:
+        return False
+    group, rel, container, raw, text = world.ctx
+    cname, name = key
+    places = []
+    if cname is None:
+        places = ([container] if container and container.startswith("mod ") else []) + [None]
+    elif container and container.startswith("impl ") and container.split()[1] == cname:
+        places = [container]
+    elif cname in world.structs:
+        places = ["impl " + cname]
+    for place in places:
+        try:
+            find_item(text, place, "fn", name)
+        except Reject:
+            continue
+        if (place, name) in world.aux_busy:
+            raise Reject(f"recursive call of `{shown}`")
+        world.aux_busy.add((place, name))
+        try:
+            out, sha, line, _ = translate(world, text, raw, place, "fn", name, aux=True)
+        except Reject as ex:
+            raise Reject(f"call of `{shown}`, which is not in the item table; looked up as {rel} :: "
+                         + (place + " :: " if place else "") + f"fn {name}: {ex}")
+        finally:
+            world.aux_busy.discard((place, name))
+        where = (place + " :: " if place else "") + f"fn {name}"
+        world.pending.append(f"\n/-- AUXILIARY item (not in the item table: found by lookup from a translated caller), generated from "
+                             f"`{where}` ({rel}:{line}) -/\n{out}")
+        world.aux_header.append(f"    + auxiliary (by lookup): {rel} :: {where}  (line {line})  sha256[:16]={sha}")
+        world.aux_names[world.fns[key][0]] = {group}
+        return key in world.fns
+    return False
 
 
 # ------------------------------------------------------------------------------------------ parser + emitter
@@ -426,8 +478,6 @@ class P:
                 self.eat(";")
                 if ann and ann != t:
                     raise Reject(f"`let {x}: {ty_str(ann)}` bound to a value of type {ty_str(t)}")
-                if t == BOOL:
-                    raise Reject(f"`let {x}` bound to a bool (only Decimal / struct / enum values)")
                 if m:
                     if not (want and want[0] == "opt"):
                         raise Reject("`?` in a function that does not return an Option")
@@ -435,7 +485,13 @@ class P:
                     rest = self.block_body({**env, x: (t, mut)}, top, want, ind + 1)
                     lines.append(f"{pad}match ({e}) with\n{pad}| none => none\n{pad}| some {lean_id(x)} =>\n{rest}")
                     return "\n".join(lines)
-                lines.append(f"{pad}let {lean_id(x)} : {ty_str(t)} := {e}")
+                if t == BOOL:
+                    # a hoisted test: bool-typed text is a decidable proposition, the local holds its decision
+                    if mut:
+                        raise Reject(f"`let mut {x}` bound to a bool")
+                    lines.append(f"{pad}let {lean_id(x)} : Bool := decide {e}")
+                else:
+                    lines.append(f"{pad}let {lean_id(x)} : {ty_str(t)} := {e}")
                 env[x] = (t, mut)
             elif self.kind() == "id" and self.peek(1) in ("+=", "-=", "*=", "/="):
                 x = self.next()
@@ -879,6 +935,8 @@ class P:
             raise Reject(f"bool literal `{v}` as a value")
         if v not in env:
             raise Reject(f"unknown identifier `{v}`")
+        if env[v][0] == BOOL:
+            return f"({lean_id(v)} = true)", BOOL      # a bool local read as the proposition it decides
         return lean_id(v), env[v][0]
 
     def call(self, key, shown, env, ind):
@@ -891,9 +949,13 @@ class P:
             elif self.peek() != ")":
                 raise Reject(f"`{self.peek()}` in the argument list of `{shown}(`")
         self.eat(")")
-        if key not in self.w.fns:
-            raise Reject(f"call of `{shown}`, which is not a translated function")
+        if key not in self.w.fns and not aux_translate(self.w, key, shown):
+            raise Reject(f"call of `{shown}`, which is not a translated function (and no such function was found by lookup)")
         lname, ptys, rty = self.w.fns[key]
+        if lname in self.w.aux_names and self.w.ctx and self.w.ctx[0] not in self.w.aux_names[lname]:
+            # an auxiliary definition generated for another group is used by this group too: it joins its simp set
+            self.w.aux_names[lname].add(self.w.ctx[0])
+            self.w.pending.append(f"\nattribute [gen_{self.w.ctx[0]}] {lname}")
         if [t for _, t in args] != ptys:
             raise Reject(f"call of `{shown}` with argument types {[ty_str(t) for _, t in args]}")
         return "(" + " ".join([lname] + [a if re.fullmatch(r"[\w.«»]+|\(.*\)", a, re.S) else f"({a})" for a, _ in args]) + ")", rty
@@ -925,8 +987,9 @@ class P:
             if ann and ann != t:
                 raise Reject(f"`let {x}: {ty_str(ann)}` bound to a value of type {ty_str(t)}")
             if t == BOOL:
-                raise Reject(f"`let {x}` bound to a bool")
-            lines.append(f"{pad}let {lean_id(x)} : {ty_str(t)} := {e}")
+                lines.append(f"{pad}let {lean_id(x)} : Bool := decide {e}")
+            else:
+                lines.append(f"{pad}let {lean_id(x)} : {ty_str(t)} := {e}")
             env[x] = (t, False)
         if self.peek() == "return":
             raise Reject("`return` inside a nested block (only `if c { return e; }` at statement level)")
@@ -1006,7 +1069,7 @@ class P:
 
 # ------------------------------------------------------------------------------------------ driver
 
-def translate(world, text, raw, container, kind, name):
+def translate(world, text, raw, container, kind, name, aux=False):
     """returns (lean text of the item, sha of its source text)"""
     a, b = find_item(text, container, kind, name)
     sha = hashlib.sha256(raw[a:b].encode()).hexdigest()[:16]
@@ -1033,11 +1096,19 @@ def translate(world, text, raw, container, kind, name):
         prefix = container.split()[1] + "." if container else ""
         lname = prefix + n
         key = (cname, n)
+        if not aux and key in world.fns and lname in world.aux_names:
+            # a table item that an earlier table item calls: it was already generated by lookup
+            groups = world.aux_names.pop(lname)
+            extra = f"attribute [gen_{world.ctx[0]}] {lname}" if world.ctx[0] not in groups else ""
+            return (f"-- already generated above as `{lname}` (a translated caller listed earlier uses it)\n{extra}").rstrip(), sha, line, b
         if key in world.fns or any(v[0] == lname for v in world.fns.values()):
             raise Reject(f"name clash: `{lname}` is generated twice")
         world.fns[key] = (lname, [t for _, t in params], ret)
         ps = " ".join(f"({lean_id(x)} : {ty_str(t)})" for x, t in params)
-        out = f"def {lname} {ps} : {ty_str(ret)} :=\n{body}"
+        # every generated definition is in the simp set of its group (Generated/Attr.lean): agreement proofs unfold
+        # "everything generated for this group" without knowing the names of auxiliary definitions
+        attr = f"@[gen_{world.ctx[0]}] " if world.ctx else ""
+        out = f"{attr}def {lname} {ps} : {ty_str(ret)} :=\n{body}"
     return out, sha, line, b
 
 
@@ -1073,28 +1144,39 @@ def main():
                 raw = open(path, encoding="utf-8").read()
                 cache[rel] = (raw, blank_comments(raw))
             raw, text = cache[rel]
+            world.ctx = (group, rel, container, raw, text)
+            world.pending, world.aux_header = [], []
             out, sha, line, _ = translate(world, text, raw, container, kind, name)
         except Reject as e:
             errors.append((group, f"rust2lean: REJECTED {shown}: {e}"))
             failed_groups.add(group)
             header.append(f"  {shown}: NOT TRANSLATED ({e})")
+            header.extend(world.aux_header)
             if (group, rel) != cur:
                 sections.append(f"\n/-! ## {rel} -/")
                 cur = (group, rel)
+            sections.extend(world.pending)     # auxiliary items translated before the rejection stay defined
             sections.append(f"\n-- NOT TRANSLATED: {kind} {name}: {e}")
             continue
         if (group, rel) != cur:
             sections.append(f"\n/-! ## {rel} -/")
             cur = (group, rel)
         header.append(f"  {shown}  (line {line})  sha256[:16]={sha}")
+        header.extend(world.aux_header)
+        sections.extend(world.pending)
         where = (container + " :: " if container else "") + f"{kind} {name}"
-        sections.append(f"\n/-- generated from `{where}` ({rel}:{line}) -/\n{out}")
+        if out.startswith("-- already"):
+            sections.append(f"\n-- `{where}` ({rel}:{line}) {out[3:]}")
+        else:
+            sections.append(f"\n/-- generated from `{where}` ({rel}:{line}) -/\n{out}")
     text = ("/-\nGENERATED FILE -- DO NOT EDIT.  Written by tools/rust2lean.py from the Rust source on every run of\n"
             "`./check` for the properties whose props/Cxx.py names it in PREBUILD; the committed copy is the output for\n"
             "the pinned tree.  `Decimal` (and a generic `T` instantiated at `Decimal`) is `Rat`; conditions are decidable\n"
             "propositions; `x += e` is a re-binding of `x`.  The agreement with the hand-written models is proved in\n"
-            "Lemmas/KernelsAgree/*.lean.\n\nSource items (file :: item, line, hash of the item's source text):\n"
-            + "\n".join(header) + "\n-/\nnamespace BarterModel.Generated\n\n" + PRELUDE + "\n".join(sections)
+            "Lemmas/KernelsAgree/*.lean.  Every definition carries the simp attribute `gen_<group>` of its group\n"
+            "(Generated/Attr.lean), auxiliary functions found by lookup included.\n\n"
+            "Source items (file :: item, line, hash of the item's source text):\n"
+            + "\n".join(header) + "\n-/\nimport BarterModel.Generated.Attr\nnamespace BarterModel.Generated\n\n" + PRELUDE + "\n".join(sections)
             + "\n\nend BarterModel.Generated\n")
     if to_stdout:
         sys.stdout.write(text)
